@@ -154,7 +154,7 @@ func (h *Hist) genTx() *histTx {
 	}{
 		{"amm.join", 10}, {"amm.exit", 8}, {"amm.swapIn", 10}, {"amm.swapOut", 6}, {"amm.swapByDenom", 3}, {"amm.swapBurst", 2},
 		{"ss.bond", 5}, {"ss.unbond", 5},
-		{"cm.commitClaimed", 3}, {"cm.uncommit", 3}, {"cm.vest", 3}, {"cm.cancelVest", 2}, {"cm.claimVesting", 3}, {"cm.vestLiquid", 1}, {"stake.delegate", 2}, {"stake.undelegate", 2}, {"cm.unstakeOther", 1}, {"bank.toZero", 1},
+		{"cm.commitClaimed", 3}, {"cm.uncommit", 3}, {"cm.vest", 3}, {"cm.cancelVest", 2}, {"cm.claimVesting", 3}, {"cm.vestLiquid", 1}, {"cm.vestNow", 1}, {"stake.delegate", 2}, {"stake.undelegate", 2}, {"cm.unstakeOther", 1}, {"bank.toZero", 1},
 		{"lp.open", 8}, {"lp.close", 6}, {"lp.closePositions", 4}, {"lp.claim", 1},
 		{"perp.open", 8}, {"perp.close", 6}, {"perp.closePositions", 4}, {"perp.swapOutPair", 1},
 		{"mc.claim", 3}, {"mc.externalIncentive", 1},
@@ -420,15 +420,15 @@ func (h *Hist) genTx() *histTx {
 		}
 		tx.req.Msgs = []sdk.Msg{&sstypes.MsgUnbond{Creator: u.Addr.String(), Amount: a}}
 		tx.f = J{"amt": a.String()}
-	case "cm.commitClaimed", "cm.uncommit", "cm.vest", "cm.cancelVest":
+	case "cm.commitClaimed", "cm.uncommit", "cm.vest", "cm.cancelVest", "cm.vestNow":
 		c := app.CommitmentKeeper.GetCommitments(ctx, u.Addr)
 		d := "ueden"
-		if r.Intn(3) == 0 && kind != "cm.vest" && kind != "cm.cancelVest" {
+		if r.Intn(3) == 0 && kind != "cm.vest" && kind != "cm.cancelVest" && kind != "cm.vestNow" {
 			d = "uedenb"
 		}
 		var have math.Int
 		switch kind {
-		case "cm.commitClaimed", "cm.vest":
+		case "cm.commitClaimed", "cm.vest", "cm.vestNow":
 			have = c.Claimed.AmountOf(d)
 		case "cm.uncommit":
 			have = c.GetCommittedAmountForDenom(d)
@@ -452,6 +452,9 @@ func (h *Hist) genTx() *histTx {
 			tx.req.Msgs = []sdk.Msg{&ctypes.MsgUncommitTokens{Creator: u.Addr.String(), Amount: a, Denom: d}}
 		case "cm.vest":
 			tx.req.Msgs = []sdk.Msg{&ctypes.MsgVest{Creator: u.Addr.String(), Amount: a, Denom: d}}
+		case "cm.vestNow":
+			// claimed Eden turned into the vesting denom at once, at the vest-now discount (enabled by governance in the worlds that have it)
+			tx.req.Msgs = []sdk.Msg{&ctypes.MsgVestNow{Creator: u.Addr.String(), Amount: a, Denom: d}}
 		default:
 			tx.req.Msgs = []sdk.Msg{&ctypes.MsgCancelVest{Creator: u.Addr.String(), Amount: a, Denom: d}}
 		}
@@ -1245,6 +1248,13 @@ func runHist(t *testing.T, seed int64, n int, out *Out) {
 				if sh := h.govVaultShock(); sh != "" {
 					curShocks = append(curShocks, sh)
 					stats["govVault/applied"]++
+				}
+			}
+			if os.Getenv("VERIF_GOVVEST") != "" && (b == 1 || h.r.Intn(30) == 0) {
+				// governance switches vest-now on and re-points what Eden vests into (early in the history, and now and then again)
+				if sh := h.govVestShock(); sh != "" {
+					curShocks = append(curShocks, sh)
+					stats["govVest/applied"]++
 				}
 			}
 			if os.Getenv("VERIF_GOVAMM") != "" && (b == 1 || h.r.Intn(25) == 0) {
